@@ -20,7 +20,8 @@ static uint64_t hash_filters(const lzma_filter *f)
 		} else if (f[i].id == LZMA_FILTER_LZMA1 || f[i].id == LZMA_FILTER_LZMA2 || f[i].id == LZMA_FILTER_LZMA1EXT) {
 			const lzma_options_lzma *o = f[i].options;
 			h = mix(h, o->dict_size);
-			h = mix(h, o->lc * 100 + o->lp * 10 + o->pb);
+			if (f[i].id != LZMA_FILTER_LZMA2)      // LZMA2 keeps lc/lp/pb in its chunk headers; the decoded options leave them unset
+				h = mix(h, o->lc * 100 + o->lp * 10 + o->pb);
 		} else if (f[i].id == LZMA_FILTER_DELTA) {
 			const lzma_options_delta *o = f[i].options;
 			h = mix(h, o->dist);
@@ -114,10 +115,11 @@ bool c04_run_parse_ep(const c04_op *op, c04_res *r)
 		lzma_ret ret = lzma_raw_buffer_decode(f, &c04_alloc, in, &in_pos, op->in_len, out, &out_pos, out_size);
 		r->ret = (int)ret;
 		r->calls = 1;
-		c04_check_ret(r, ep, (int)ret, R_OK | R_BUF | R_OPTIONS | R_MEM | R_DATA);
+		// invalid option structs handed in by the application (chains >= 24) may be answered with LZMA_PROG_ERROR
+		c04_check_ret(r, ep, (int)ret, R_OK | R_BUF | R_OPTIONS | R_MEM | R_DATA | (op->p[0] >= 24 ? R_PROG : 0));
 		if (in_pos > op->in_len || out_pos > out_size)
 			c04_bad(r, "rbuf-position-outside-buffer");
-		if (op->p[0] >= 24 && ret != LZMA_OPTIONS_ERROR)
+		if (op->p[0] >= 24 && ret != LZMA_OPTIONS_ERROR && ret != LZMA_PROG_ERROR)
 			c04_bad(r, "rbuf-accepted-invalid-chain-%u:%d", (unsigned)op->p[0], (int)ret);
 		r->in_total = in_pos;
 		r->out_total = out_pos;
@@ -144,7 +146,9 @@ bool c04_run_parse_ep(const c04_op *op, c04_res *r)
 		const lzma_vli unp = lzma_block_unpadded_size(&b), tot = lzma_block_total_size(&b);
 		h = mix(h, unp);
 		h = mix(h, tot);
-		if (unp != 0 && (unp < 5 || unp > LZMA_VLI_MAX - 3 || tot < unp || tot > unp + 3 || (tot & 3)))
+		// lzma_block_unpadded_size/total_size: 0 = invalid, LZMA_VLI_UNKNOWN when Compressed Size is unknown
+		if (b.compressed_size == LZMA_VLI_UNKNOWN ? (unp != LZMA_VLI_UNKNOWN || tot != LZMA_VLI_UNKNOWN)
+				: (unp != 0 && (unp < 5 || unp > LZMA_VLI_MAX - 3 || tot < unp || tot > unp + 3 || (tot & 3))))
 			c04_bad(r, "block-sizes-inconsistent:unpadded=%" PRIu64 ",total=%" PRIu64, (uint64_t)unp, (uint64_t)tot);
 		if (!strcmp(ep, "bhdr")) {
 			lzma_block b2 = b;
@@ -282,7 +286,7 @@ bool c04_run_parse_ep(const c04_op *op, c04_res *r)
 		}
 		r->ret = (int)ret;
 		r->in_total = pos;
-		if (ret == LZMA_STREAM_END && (dr != LZMA_OK || perturb >= 2) && nrec > 0 && dr == LZMA_OK && perturb >= 2)
+		if (ret == LZMA_STREAM_END && dr == LZMA_OK && perturb >= 2 && nrec > 0)
 			c04_bad(r, "ihash-accepted-an-Index-that-differs-from-the-hashed-Records");
 		lzma_index_hash_end(hh, &c04_alloc);
 		return true;
@@ -376,7 +380,7 @@ bool c04_run_parse_ep(const c04_op *op, c04_res *r)
 		if (ret == LZMA_OK) {
 			lzma_filter ff[2] = { f, { .id = LZMA_VLI_UNKNOWN, .options = NULL } };
 			r->aux = hash_filters(ff);
-			if (f.options != NULL && (f.id == LZMA_FILTER_LZMA1 || f.id == LZMA_FILTER_LZMA2 || f.id == LZMA_FILTER_LZMA1EXT)) {
+			if (f.options != NULL && (f.id == LZMA_FILTER_LZMA1 || f.id == LZMA_FILTER_LZMA1EXT)) {
 				const lzma_options_lzma *o = f.options;
 				if (o->lc + o->lp > LZMA_LCLP_MAX || o->pb > LZMA_PB_MAX)
 					c04_bad(r, "lzma_properties_decode-accepted-lc=%u-lp=%u-pb=%u", o->lc, o->lp, o->pb);
@@ -469,8 +473,8 @@ bool c04_run_parse_ep(const c04_op *op, c04_res *r)
 				c04_bad(r, "vli-multi-position-outside-buffer");
 				break;
 			}
-			if ((r2 == LZMA_BUF_ERROR) != (chunk == 0) && r2 != LZMA_DATA_ERROR && r2 != LZMA_STREAM_END && r2 != LZMA_OK)
-				c04_bad(r, "vli-multi-BUF_ERROR-mismatch");
+			if (chunk == 0 && r2 != LZMA_BUF_ERROR)
+				c04_bad(r, "vli-multi-no-input-but-%d", (int)r2);
 			if (r2 == LZMA_BUF_ERROR && chunk != 0)
 				c04_bad(r, "vli-multi-BUF_ERROR-with-input");
 			if (r2 == LZMA_OK && (chunk == 0 || p != chunk))
